@@ -182,3 +182,88 @@ func VerifC08Run() {
 	}
 	rt.Assert(len(recorded[0]) == 1 && verbatimScalar(recorded[0][0], v), "$v did not arrive as exactly one verbatim argument")
 }
+
+// ---- json arrays (the usual murex array value). encoding/json runs on concrete values only, so
+// the elements come from a concrete pool of injection-shaped strings (every combination is run).
+
+var pool = []string{
+	"a b", "", "$v", "@a", "~", "*", "?", ";verifc08rec x", "|verifc08rec x", "&& verifc08rec x", "${verifc08rec x}",
+	"{", "}", "'", "\"", " lead", "trail ", "a\tb", "\\", "\\n", "#c", "`x`", "(", "%[1]", "->", "<x>", "é ü", "a=b", ":", "\x01",
+}
+
+func jsonQuote(s string) string {
+	const hex = "0123456789abcdef"
+	out := []byte{'"'}
+	for i := 0; i < len(s); i++ {
+		c := s[i]
+		switch {
+		case c == '"' || c == '\\':
+			out = append(out, '\\', c)
+		case c < 0x20:
+			out = append(out, '\\', 'u', '0', '0', hex[c>>4], hex[c&15])
+		default:
+			out = append(out, c)
+		}
+	}
+	return string(append(out, '"'))
+}
+
+// VerifC08JsonArray: a json array variable of 1..k pool elements; `verifc08rec @a` is run as a
+// block by the interpreter: exactly one command runs, with one verbatim argument per element.
+func VerifC08JsonArray() {
+	k := rt.Choice("elems", rt.Param("k")) + 1
+	np := rt.Param("pool")
+	elems := make([]string, k)
+	text := "["
+	hasEmpty := false
+	for i := 0; i < k; i++ {
+		elems[i] = pool[rt.Choice("e", np)]
+		if elems[i] == "" {
+			hasEmpty = true
+		}
+		if i > 0 {
+			text += ","
+		}
+		text += jsonQuote(elems[i])
+	}
+	text += "]"
+	rt.KnownFinding("C08-empty-array-element", hasEmpty)
+
+	fork := newScope()
+	err := fork.Variables.Set(fork.Process, "a", text, types.Json)
+	rt.Assert(err == nil, "could not set a json array variable")
+	recorded = nil
+	_, err = fork.Execute([]rune("verifc08rec @a"))
+	rt.Reach("json-array-ran")
+	rt.Assert(err == nil, "block failed to compile")
+	rt.Assert(len(recorded) == 1, "not exactly one command ran")
+	if len(recorded) != 1 {
+		return
+	}
+	got := recorded[0]
+	rt.Assert(len(got) == k, "@a did not give exactly one argument per array element")
+	if len(got) != k {
+		return
+	}
+	for i := 0; i < k; i++ {
+		rt.Assert(got[i] == elems[i], "an @a element was not passed verbatim")
+	}
+}
+
+// VerifC08PoolScalar: `verifc08rec $v` run as a block, v from the concrete pool (adds non-ASCII
+// and multi-character injection shapes to VerifC08Run).
+func VerifC08PoolScalar() {
+	v := pool[rt.Choice("v", rt.Param("pool"))]
+	fork := newScope()
+	err := fork.Variables.Set(fork.Process, "v", v, types.String)
+	rt.Assert(err == nil, "could not set a string variable")
+	recorded = nil
+	_, err = fork.Execute([]rune("verifc08rec $v"))
+	rt.Reach("pool-scalar-ran")
+	rt.Assert(err == nil, "block failed to compile")
+	rt.Assert(len(recorded) == 1, "not exactly one command ran")
+	if len(recorded) != 1 {
+		return
+	}
+	rt.Assert(len(recorded[0]) == 1 && recorded[0][0] == v, "$v did not arrive as exactly one verbatim argument")
+}
